@@ -28,9 +28,33 @@
 (* gaps[k] = 1 says the caller waits before request k long enough for a    *)
 (* dying child to be gone; 0 says nothing about the timing.                *)
 (*                                                                         *)
-(* BreakOutAfterPanic = FALSE is the code before the "fix:" commit (after  *)
-(* a Panic reply the child exits but the parent neither reaps nor respawns *)
-(* it); TRUE is the repaired code.                                         *)
+(* Environment (round 3).  Two things can happen to a sandbox that are not *)
+(* requests:                                                               *)
+(*   abandon   the caller drops the future returned by execute before the  *)
+(*             reply has arrived (plan kinds "abandon": a slow request     *)
+(*             that stays within the limit, "abover": one that overruns    *)
+(*             it).  The abandoned request gets no reply (history entry    *)
+(*             "Abandoned"; if the reply won the race, that reply); its    *)
+(*             request stays in the channel / pipe / child and its reply   *)
+(*             still arrives in respCh.                                    *)
+(*   kill      plan entry "kill" (not a request): the child is killed from *)
+(*             outside while it is idle - the parent task waiting for a    *)
+(*             request.  History entry "Env".                              *)
+(* gaps[k] >= 1 after a kill says the caller sends request k only when the *)
+(* killed child is gone; gap kinds 2 and 3 are idle times close to and     *)
+(* beyond the time limit (idle time is nobody's execution time: they       *)
+(* behave as 1 here, the generator turns them into milliseconds).          *)
+(*                                                                         *)
+(* Three switches select the code before a "fix:" commit (FALSE) or the    *)
+(* repaired code (TRUE):                                                   *)
+(*   BreakOutAfterPanic  ca74683: after a Panic reply the child exits but  *)
+(*                       the parent neither reaped nor respawned it        *)
+(*   DrainAbandoned      e127414: execute counts the requests whose reply  *)
+(*                       was not taken (`outstanding`, our `out`) and      *)
+(*                       discards those replies before it sends            *)
+(*   RespawnOnEpipe      0c4449c: a request whose write fails because the  *)
+(*                       child is gone is sent to a fresh child (once)     *)
+(*                       instead of ending the task                        *)
 (*                                                                         *)
 (* Property C18 is stated at the bottom.  Ctrl-C (Error::Interrupted) is   *)
 (* not part of the property's quantifier and is not modelled; the timer is *)
@@ -39,27 +63,32 @@
 EXTENDS Integers, Sequences, FiniteSets, TLC
 
 CONSTANTS MaxReq,              \* longest request sequence
-          Kinds,               \* subset of {"ok","panic","overrun","oom","exit","big"}
-          GapKinds,            \* subset of {0, 1}
+          Kinds,               \* subset of {"ok","slow","panic","overrun","oom","exit","big","abandon","abover","kill"}
+          GapKinds,            \* subset of {0, 1, 2, 3}
           UniformGaps,         \* BOOLEAN: all gaps of a sequence equal (bounds the generator)
           PipeCap,             \* chunks a pipe buffers
           BigChunks,           \* chunks of a "big" frame (> PipeCap)
-          BreakOutAfterPanic   \* BOOLEAN, see above
+          BreakOutAfterPanic,  \* BOOLEAN, see above
+          DrainAbandoned,      \* BOOLEAN, see above
+          RespawnOnEpipe       \* BOOLEAN, see above
 
 VARIABLES plan, gaps,                         \* the test case (constant during a behaviour)
-          cpc, next,                          \* caller: "idle" | "waiting" | "done"; request being / to be executed
+          cpc, next, out,                     \* caller: "idle" | "waiting" | "done"; request being / to be executed;
+                                              \*   requests sent whose reply was not taken from respCh (Sandbox.outstanding)
           reqCh, respCh, taskAlive,           \* the two channels; the parent task still exists
-          ppc, cur, pw, pr, resp, brk,        \* parent task
+          ppc, cur, pw, pr, resp, brk, resent,  \* parent task
           gen, cst, creq, cfr, cw, cr, expired,  \* child process
           inPipe, outPipe,                    \* child's stdin / stdout
           got                                 \* history: what each execute returned
 
-pvars == <<ppc, cur, pw, pr, resp, brk>>
+pvars == <<ppc, cur, pw, pr, resp, brk, resent>>
 cvars == <<gen, cst, creq, cfr, cw, cr, expired>>
-vars == <<plan, gaps, cpc, next, reqCh, respCh, taskAlive, pvars, cvars, inPipe, outPipe, got>>
+vars == <<plan, gaps, cpc, next, out, reqCh, respCh, taskAlive, pvars, cvars, inPipe, outPipe, got>>
 
-Faults == {"panic", "overrun", "oom", "exit"}
-Served == {"ok", "big"}
+Faults == {"panic", "overrun", "oom", "exit", "abover"}   \* the child is replaced after these
+Served == {"ok", "big", "slow"}
+AbandonKinds == {"abandon", "abover"}
+EnvKinds == {"kill"}                                         \* plan entries that are not requests
 
 Chunk(t, k, n) == [t |-> t, req |-> k, n |-> n]
 NoChunk == Chunk("none", 0, 0)
@@ -78,9 +107,9 @@ ChildThere == cst \notin {"none", "dead"}
 -----------------------------------------------------------------------------
 InitWith(p, g) ==
   /\ plan = p /\ gaps = g
-  /\ cpc = "idle" /\ next = 1
+  /\ cpc = "idle" /\ next = 1 /\ out = 0
   /\ reqCh = 0 /\ respCh = NoResp /\ taskAlive = TRUE
-  /\ ppc = "spawn" /\ cur = 0 /\ pw = 0 /\ pr = 0 /\ resp = NoResp /\ brk = FALSE
+  /\ ppc = "spawn" /\ cur = 0 /\ pw = 0 /\ pr = 0 /\ resp = NoResp /\ brk = FALSE /\ resent = FALSE
   /\ gen = 0 /\ cst = "none" /\ creq = 0 /\ cfr = NoChunk /\ cw = 0 /\ cr = 0 /\ expired = FALSE
   /\ inPipe = <<>> /\ outPipe = <<>>
   /\ got = <<>>
@@ -93,40 +122,78 @@ GapsFor(p) == {g \in [1..Len(p) -> GapKinds] :
 Init == \E p \in Plans : \E g \in GapsFor(p) : InitWith(p, g)
 
 -----------------------------------------------------------------------------
-(* Caller: Sandbox::execute, parent.rs:186-197 *)
+(* Caller: Sandbox::execute, parent.rs (the caller's side) *)
 
 Return(r) ==
   /\ got' = Append(got, r)
   /\ next' = next + 1
   /\ cpc' = IF next = Len(plan) THEN "done" ELSE "idle"
 
-GapOver == gaps[next] = 1 => cst # "dying"
+GapOver == gaps[next] >= 1 => cst # "dying"
 
-CSend ==       \* send_request.send(req): the request is in the channel
-  /\ cpc = "idle" /\ next <= Len(plan) /\ GapOver
-  /\ taskAlive
-  /\ reqCh' = next /\ cpc' = "waiting"
+\* the caller is about to call execute for request `next`
+CanCall == cpc = "idle" /\ next <= Len(plan) /\ plan[next] \notin EnvKinds /\ GapOver
+
+\* the repaired execute first takes the replies of abandoned requests out of the way
+Drained == DrainAbandoned => out = 0
+
+CDrain ==      \* `while *outstanding > 0 { recv_response.recv() ... }`: the reply of an abandoned request is discarded
+  /\ DrainAbandoned /\ CanCall /\ out > 0 /\ respCh # NoResp
+  /\ respCh' = NoResp /\ out' = out - 1
+  /\ UNCHANGED <<plan, gaps, cpc, next, reqCh, taskAlive, pvars, cvars, inPipe, outPipe, got>>
+
+CDrainFail ==  \* ... and the channel is empty and closed: Error::Recv
+  /\ DrainAbandoned /\ CanCall /\ out > 0 /\ respCh = NoResp /\ ~taskAlive
+  /\ Return(Reply("RecvFailed", 0, 0))
+  /\ UNCHANGED <<plan, gaps, out, reqCh, respCh, taskAlive, pvars, cvars, inPipe, outPipe>>
+
+CSend ==       \* send_request.send(req): the request is in the channel (bounded 1: it has room)
+  /\ CanCall /\ Drained
+  /\ taskAlive /\ reqCh = 0
+  /\ reqCh' = next /\ cpc' = "waiting" /\ out' = out + 1
   /\ UNCHANGED <<plan, gaps, next, respCh, taskAlive, pvars, cvars, inPipe, outPipe, got>>
 
 CSendFail ==   \* the receiver is gone: Error::Send("request to child")
-  /\ cpc = "idle" /\ next <= Len(plan) /\ GapOver
+  /\ CanCall /\ Drained
   /\ ~taskAlive
   /\ Return(Reply("SendFailed", 0, 0))
-  /\ UNCHANGED <<plan, gaps, reqCh, respCh, taskAlive, pvars, cvars, inPipe, outPipe>>
+  /\ UNCHANGED <<plan, gaps, out, reqCh, respCh, taskAlive, pvars, cvars, inPipe, outPipe>>
 
-CRecv ==       \* recv_response.recv() yields the parent task's reply
+CRecv ==       \* recv_response.recv() yields what the parent task delivered
   /\ cpc = "waiting" /\ respCh # NoResp
   /\ Return(respCh)
-  /\ respCh' = NoResp
+  /\ respCh' = NoResp /\ out' = out - 1
   /\ UNCHANGED <<plan, gaps, reqCh, taskAlive, pvars, cvars, inPipe, outPipe>>
 
 CRecvFail ==   \* the channel is empty and closed: Error::Recv
   /\ cpc = "waiting" /\ respCh = NoResp /\ ~taskAlive
   /\ Return(Reply("RecvFailed", 0, 0))
   /\ reqCh' = 0
-  /\ UNCHANGED <<plan, gaps, respCh, taskAlive, pvars, cvars, inPipe, outPipe>>
+  /\ UNCHANGED <<plan, gaps, out, respCh, taskAlive, pvars, cvars, inPipe, outPipe>>
 
-Caller == CSend \/ CSendFail \/ CRecv \/ CRecvFail
+CAbandon ==    \* environment: the future is dropped after the request was sent; request and reply stay where they are
+  /\ cpc = "waiting" /\ plan[next] \in AbandonKinds
+  /\ Return(Reply("Abandoned", 0, 0))
+  /\ UNCHANGED <<plan, gaps, out, reqCh, respCh, taskAlive, pvars, cvars, inPipe, outPipe>>
+
+CAbandonEarly ==   \* ... or while execute is still waiting for the reply of an earlier abandoned request: nothing was sent
+  /\ DrainAbandoned /\ CanCall /\ out > 0 /\ plan[next] \in AbandonKinds
+  /\ Return(Reply("Abandoned", 0, 0))
+  /\ UNCHANGED <<plan, gaps, out, reqCh, respCh, taskAlive, pvars, cvars, inPipe, outPipe>>
+
+\* the parent task is waiting for a request (or will never take one again)
+ParentIdle == \/ ppc = "take" /\ reqCh = 0
+              \/ ~taskAlive
+              \/ ppc = "deliver" /\ respCh # NoResp      \* stuck behind a reply nobody takes (code before e127414)
+
+CKill ==       \* environment: the idle child is killed from outside (SIGKILL); it is gone a little later (CDie)
+  /\ cpc = "idle" /\ next <= Len(plan) /\ plan[next] = "kill" /\ GapOver
+  /\ ParentIdle
+  /\ cst' = IF cst \in {"none", "dead"} THEN cst ELSE "dying"
+  /\ Return(Reply("Env", 0, 0))
+  /\ UNCHANGED <<plan, gaps, out, reqCh, respCh, taskAlive, pvars, gen, creq, cfr, cw, cr, expired, inPipe, outPipe>>
+
+Caller == CDrain \/ CDrainFail \/ CSend \/ CSendFail \/ CRecv \/ CRecvFail \/ CAbandon \/ CAbandonEarly \/ CKill
 
 -----------------------------------------------------------------------------
 (* Parent task: run_task, parent.rs:46-150 *)
@@ -136,25 +203,25 @@ PSpawn ==      \* Command::spawn, parent.rs:56-69: a new child with fresh pipes
   /\ gen' = gen + 1 /\ cst' = "boot" /\ creq' = 0 /\ cfr' = NoChunk /\ cw' = 0 /\ cr' = 0 /\ expired' = FALSE
   /\ inPipe' = <<>> /\ outPipe' = <<>>
   /\ ppc' = "hs_write"
-  /\ UNCHANGED <<plan, gaps, cpc, next, reqCh, respCh, taskAlive, cur, pw, pr, resp, brk, got>>
+  /\ UNCHANGED <<plan, gaps, cpc, next, out, reqCh, respCh, taskAlive, cur, pw, pr, resp, brk, resent, got>>
 
 PHsWrite ==    \* write the config frame, parent.rs:71
   /\ TaskRuns /\ ppc = "hs_write" /\ ChildThere
   /\ inPipe' = Append(inPipe, Chunk("cfg", 0, 1))
   /\ ppc' = "hs_read"
-  /\ UNCHANGED <<plan, gaps, cpc, next, reqCh, respCh, taskAlive, cur, pw, pr, resp, brk, cvars, outPipe, got>>
+  /\ UNCHANGED <<plan, gaps, cpc, next, out, reqCh, respCh, taskAlive, cur, pw, pr, resp, brk, resent, cvars, outPipe, got>>
 
 PHsRead ==     \* read the handshake response, parent.rs:73-76
   /\ TaskRuns /\ ppc = "hs_read" /\ outPipe # <<>> /\ Head(outPipe).t = "hs"
   /\ outPipe' = Tail(outPipe)
-  /\ ppc' = "take"
-  /\ UNCHANGED <<plan, gaps, cpc, next, reqCh, respCh, taskAlive, cur, pw, pr, resp, brk, cvars, inPipe, got>>
+  /\ ppc' = IF resent THEN "write" ELSE "take"     \* a request waiting to be sent again goes first
+  /\ UNCHANGED <<plan, gaps, cpc, next, out, reqCh, respCh, taskAlive, cur, pw, pr, resp, brk, resent, cvars, inPipe, got>>
 
 PTake ==       \* recv_request.recv(), parent.rs:79
   /\ TaskRuns /\ ppc = "take" /\ reqCh # 0
   /\ cur' = reqCh /\ reqCh' = 0 /\ pw' = 0
   /\ ppc' = "write"
-  /\ UNCHANGED <<plan, gaps, cpc, next, respCh, taskAlive, pr, resp, brk, cvars, inPipe, outPipe, got>>
+  /\ UNCHANGED <<plan, gaps, cpc, next, out, respCh, taskAlive, pr, resp, brk, resent, cvars, inPipe, outPipe, got>>
 
 CanWrite == ChildThere /\ Len(inPipe) < PipeCap
 
@@ -163,28 +230,37 @@ PWriteMore ==  \* frame.write_async, not the last chunk (only "big" requests)
   /\ pw + 1 < ReqChunks(plan[cur])
   /\ inPipe' = Append(inPipe, Chunk("req", cur, ReqChunks(plan[cur])))
   /\ pw' = pw + 1
-  /\ UNCHANGED <<plan, gaps, cpc, next, reqCh, respCh, taskAlive, ppc, cur, pr, resp, brk, cvars, outPipe, got>>
+  /\ UNCHANGED <<plan, gaps, cpc, next, out, reqCh, respCh, taskAlive, ppc, cur, pr, resp, brk, resent, cvars, outPipe, got>>
 
-PWriteLast ==  \* the frame is written; the timer starts, parent.rs:81-99
+PWriteLast ==  \* the frame is written; the timer starts
   /\ TaskRuns /\ ppc = "write" /\ CanWrite
   /\ pw + 1 = ReqChunks(plan[cur])
   /\ inPipe' = Append(inPipe, Chunk("req", cur, ReqChunks(plan[cur])))
-  /\ pw' = 0 /\ pr' = 0
+  /\ pw' = 0 /\ pr' = 0 /\ resent' = FALSE
   /\ ppc' = "read"
-  /\ UNCHANGED <<plan, gaps, cpc, next, reqCh, respCh, taskAlive, cur, resp, brk, cvars, outPipe, got>>
+  /\ UNCHANGED <<plan, gaps, cpc, next, out, reqCh, respCh, taskAlive, cur, resp, brk, cvars, outPipe, got>>
 
-PWriteFail ==  \* EPIPE: `?` returns from run_task; both channel ends of the task are dropped
+PWriteGone ==  \* EPIPE, repaired code: the child died while idle; replace it and send this request to the new one (once)
   /\ TaskRuns /\ ppc = "write" /\ ~ChildThere
+  /\ RespawnOnEpipe /\ ~resent
+  /\ resent' = TRUE /\ pw' = 0
+  /\ inPipe' = <<>> /\ outPipe' = <<>>
+  /\ ppc' = "spawn"
+  /\ UNCHANGED <<plan, gaps, cpc, next, out, reqCh, respCh, taskAlive, cur, pr, resp, brk, cvars, got>>
+
+PWriteFail ==  \* EPIPE otherwise: `?` returns from run_task; both channel ends of the task are dropped
+  /\ TaskRuns /\ ppc = "write" /\ ~ChildThere
+  /\ (~RespawnOnEpipe \/ resent)
   /\ taskAlive' = FALSE
   /\ ppc' = "gone"
-  /\ UNCHANGED <<plan, gaps, cpc, next, reqCh, respCh, cur, pw, pr, resp, brk, cvars, inPipe, outPipe, got>>
+  /\ UNCHANGED <<plan, gaps, cpc, next, out, reqCh, respCh, cur, pw, pr, resp, brk, resent, cvars, inPipe, outPipe, got>>
 
 PReadMore ==   \* frame.read_async, more of the frame to come
   /\ TaskRuns /\ ppc = "read" /\ outPipe # <<>>
   /\ pr + 1 < Head(outPipe).n
   /\ outPipe' = Tail(outPipe)
   /\ pr' = pr + 1
-  /\ UNCHANGED <<plan, gaps, cpc, next, reqCh, respCh, taskAlive, ppc, cur, pw, resp, brk, cvars, inPipe, got>>
+  /\ UNCHANGED <<plan, gaps, cpc, next, out, reqCh, respCh, taskAlive, ppc, cur, pw, resp, brk, resent, cvars, inPipe, got>>
 
 PReadLast ==   \* a complete frame: Ok(result) or Err(Panic), parent.rs:102-115
   /\ TaskRuns /\ ppc = "read" /\ outPipe # <<>>
@@ -196,14 +272,14 @@ PReadLast ==   \* a complete frame: Ok(result) or Err(Panic), parent.rs:102-115
        THEN resp' = Reply("Panic", c.req, gen) /\ brk' = BreakOutAfterPanic
        ELSE resp' = Reply("Ok", c.req, gen) /\ brk' = FALSE
   /\ ppc' = "deliver"
-  /\ UNCHANGED <<plan, gaps, cpc, next, reqCh, respCh, taskAlive, cur, pw, cvars, inPipe, got>>
+  /\ UNCHANGED <<plan, gaps, cpc, next, out, reqCh, respCh, taskAlive, cur, pw, resent, cvars, inPipe, got>>
 
 PReadEof ==    \* UnexpectedEof (also in the middle of a frame): Crashed, parent.rs:116-119
   /\ TaskRuns /\ ppc = "read" /\ outPipe = <<>> /\ ~ChildThere
   /\ resp' = Reply("Crashed", 0, 0) /\ brk' = TRUE
   /\ pr' = 0
   /\ ppc' = "deliver"
-  /\ UNCHANGED <<plan, gaps, cpc, next, reqCh, respCh, taskAlive, cur, pw, cvars, inPipe, outPipe, got>>
+  /\ UNCHANGED <<plan, gaps, cpc, next, out, reqCh, respCh, taskAlive, cur, pw, resent, cvars, inPipe, outPipe, got>>
 
 PTimeout ==    \* the timer fires while the handler of the current request is still running, parent.rs:125-128
   /\ TaskRuns /\ ppc = "read" /\ cst = "sleeping" /\ creq = cur /\ ~expired
@@ -211,14 +287,14 @@ PTimeout ==    \* the timer fires while the handler of the current request is st
   /\ expired' = TRUE
   /\ pr' = 0
   /\ ppc' = "deliver"
-  /\ UNCHANGED <<plan, gaps, cpc, next, reqCh, respCh, taskAlive, cur, pw, gen, cst, creq, cfr, cw, cr, inPipe, outPipe, got>>
+  /\ UNCHANGED <<plan, gaps, cpc, next, out, reqCh, respCh, taskAlive, cur, pw, resent, gen, cst, creq, cfr, cw, cr, inPipe, outPipe, got>>
 
 PDeliver ==    \* send_response.send(response), parent.rs:131-134
   /\ TaskRuns /\ ppc = "deliver" /\ respCh = NoResp
   /\ respCh' = resp
   /\ resp' = NoResp
   /\ ppc' = IF brk THEN "kill" ELSE "take"
-  /\ UNCHANGED <<plan, gaps, cpc, next, reqCh, taskAlive, cur, pw, pr, brk, cvars, inPipe, outPipe, got>>
+  /\ UNCHANGED <<plan, gaps, cpc, next, out, reqCh, taskAlive, cur, pw, pr, brk, resent, cvars, inPipe, outPipe, got>>
 
 PKill ==       \* process.kill(); break: the old process and its pipes are dropped, parent.rs:136-147
   /\ TaskRuns /\ ppc = "kill"
@@ -226,9 +302,9 @@ PKill ==       \* process.kill(); break: the old process and its pipes are dropp
   /\ inPipe' = <<>> /\ outPipe' = <<>>
   /\ brk' = FALSE
   /\ ppc' = "spawn"
-  /\ UNCHANGED <<plan, gaps, cpc, next, reqCh, respCh, taskAlive, cur, pw, pr, resp, gen, creq, cfr, cw, cr, expired, got>>
+  /\ UNCHANGED <<plan, gaps, cpc, next, out, reqCh, respCh, taskAlive, cur, pw, pr, resp, resent, gen, creq, cfr, cw, cr, expired, got>>
 
-Parent == PSpawn \/ PHsWrite \/ PHsRead \/ PTake \/ PWriteMore \/ PWriteLast \/ PWriteFail
+Parent == PSpawn \/ PHsWrite \/ PHsRead \/ PTake \/ PWriteMore \/ PWriteLast \/ PWriteGone \/ PWriteFail
           \/ PReadMore \/ PReadLast \/ PReadEof \/ PTimeout \/ PDeliver \/ PKill
 
 -----------------------------------------------------------------------------
@@ -238,20 +314,20 @@ CHsRead ==     \* read the config, child.rs:52-54
   /\ Running /\ cst = "boot" /\ inPipe # <<>> /\ Head(inPipe).t = "cfg"
   /\ inPipe' = Tail(inPipe)
   /\ cst' = "hs"
-  /\ UNCHANGED <<plan, gaps, cpc, next, reqCh, respCh, taskAlive, pvars, gen, creq, cfr, cw, cr, expired, outPipe, got>>
+  /\ UNCHANGED <<plan, gaps, cpc, next, out, reqCh, respCh, taskAlive, pvars, gen, creq, cfr, cw, cr, expired, outPipe, got>>
 
 CHsWrite ==    \* write the handshake response, child.rs:63-72
   /\ Running /\ cst = "hs" /\ Len(outPipe) < PipeCap
   /\ outPipe' = Append(outPipe, Chunk("hs", 0, 1))
   /\ cst' = "idle"
-  /\ UNCHANGED <<plan, gaps, cpc, next, reqCh, respCh, taskAlive, pvars, gen, creq, cfr, cw, cr, expired, inPipe, got>>
+  /\ UNCHANGED <<plan, gaps, cpc, next, out, reqCh, respCh, taskAlive, pvars, gen, creq, cfr, cw, cr, expired, inPipe, got>>
 
 CReadMore ==   \* frame.read_sync, more of the frame to come
   /\ Running /\ cst = "idle" /\ inPipe # <<>>
   /\ cr + 1 < Head(inPipe).n
   /\ inPipe' = Tail(inPipe)
   /\ cr' = cr + 1
-  /\ UNCHANGED <<plan, gaps, cpc, next, reqCh, respCh, taskAlive, pvars, gen, cst, creq, cfr, cw, expired, outPipe, got>>
+  /\ UNCHANGED <<plan, gaps, cpc, next, out, reqCh, respCh, taskAlive, pvars, gen, cst, creq, cfr, cw, expired, outPipe, got>>
 
 CReadLast ==   \* the request is complete, child.rs:90
   /\ Running /\ cst = "idle" /\ inPipe # <<>>
@@ -260,24 +336,24 @@ CReadLast ==   \* the request is complete, child.rs:90
   /\ cr' = 0
   /\ creq' = Head(inPipe).req
   /\ cst' = "handling"
-  /\ UNCHANGED <<plan, gaps, cpc, next, reqCh, respCh, taskAlive, pvars, gen, cfr, cw, expired, outPipe, got>>
+  /\ UNCHANGED <<plan, gaps, cpc, next, out, reqCh, respCh, taskAlive, pvars, gen, cfr, cw, expired, outPipe, got>>
 
 CHandle ==     \* service.handle(request), child.rs:95: the request decides what happens
   /\ Running /\ cst = "handling"
   /\ LET kind == plan[creq] IN
-       CASE kind \in Served  -> cst' = "replying" /\ cfr' = Chunk("ok", creq, ReqChunks(kind))
-         [] kind = "panic"   -> cst' = "replying" /\ cfr' = Chunk("panic", creq, 1)
-         [] kind = "overrun" -> cst' = "sleeping" /\ cfr' = cfr
-         [] OTHER            -> cst' = "dying" /\ cfr' = cfr       \* oom (abort), exit
+       CASE kind \in Served \cup {"abandon"}  -> cst' = "replying" /\ cfr' = Chunk("ok", creq, ReqChunks(kind))
+         [] kind = "panic"                   -> cst' = "replying" /\ cfr' = Chunk("panic", creq, 1)
+         [] kind \in {"overrun", "abover"}   -> cst' = "sleeping" /\ cfr' = cfr
+         [] OTHER                            -> cst' = "dying" /\ cfr' = cfr       \* oom (abort), exit
   /\ cw' = 0
-  /\ UNCHANGED <<plan, gaps, cpc, next, reqCh, respCh, taskAlive, pvars, gen, creq, cr, expired, inPipe, outPipe, got>>
+  /\ UNCHANGED <<plan, gaps, cpc, next, out, reqCh, respCh, taskAlive, pvars, gen, creq, cr, expired, inPipe, outPipe, got>>
 
 CWriteMore ==  \* frame.write_sync, not the last chunk
   /\ Running /\ cst = "replying" /\ Len(outPipe) < PipeCap
   /\ cw + 1 < cfr.n
   /\ outPipe' = Append(outPipe, cfr)
   /\ cw' = cw + 1
-  /\ UNCHANGED <<plan, gaps, cpc, next, reqCh, respCh, taskAlive, pvars, gen, cst, creq, cfr, cr, expired, inPipe, got>>
+  /\ UNCHANGED <<plan, gaps, cpc, next, out, reqCh, respCh, taskAlive, pvars, gen, cst, creq, cfr, cr, expired, inPipe, got>>
 
 CWriteLast ==  \* reply written; after a panic reply the child decides to exit(1), child.rs:109-116
   /\ Running /\ cst = "replying" /\ Len(outPipe) < PipeCap
@@ -285,17 +361,17 @@ CWriteLast ==  \* reply written; after a panic reply the child decides to exit(1
   /\ outPipe' = Append(outPipe, cfr)
   /\ cw' = 0
   /\ cst' = IF cfr.t = "panic" THEN "dying" ELSE "idle"
-  /\ UNCHANGED <<plan, gaps, cpc, next, reqCh, respCh, taskAlive, pvars, gen, creq, cfr, cr, expired, inPipe, got>>
+  /\ UNCHANGED <<plan, gaps, cpc, next, out, reqCh, respCh, taskAlive, pvars, gen, creq, cfr, cr, expired, inPipe, got>>
 
 CWake ==       \* an overrunning handler that was not killed yet finishes late
   /\ Running /\ cst = "sleeping" /\ expired
   /\ cst' = "replying" /\ cfr' = Chunk("ok", creq, 1) /\ cw' = 0
-  /\ UNCHANGED <<plan, gaps, cpc, next, reqCh, respCh, taskAlive, pvars, gen, creq, cr, expired, inPipe, outPipe, got>>
+  /\ UNCHANGED <<plan, gaps, cpc, next, out, reqCh, respCh, taskAlive, pvars, gen, creq, cr, expired, inPipe, outPipe, got>>
 
 CDie ==        \* OS: the process is gone, its pipe ends are closed (what it wrote stays readable)
   /\ Running /\ cst = "dying"
   /\ cst' = "dead"
-  /\ UNCHANGED <<plan, gaps, cpc, next, reqCh, respCh, taskAlive, pvars, gen, creq, cfr, cw, cr, expired, inPipe, outPipe, got>>
+  /\ UNCHANGED <<plan, gaps, cpc, next, out, reqCh, respCh, taskAlive, pvars, gen, creq, cfr, cw, cr, expired, inPipe, outPipe, got>>
 
 Child == CHsRead \/ CHsWrite \/ CReadMore \/ CReadLast \/ CHandle \/ CWriteMore \/ CWriteLast \/ CWake \/ CDie
 
@@ -310,36 +386,52 @@ FairSpec == Spec /\ Fairness
 -----------------------------------------------------------------------------
 (* Property C18 *)
 
-\* what the property statement allows as the reply to a request of each kind
-Admissible(kind) ==
+\* What the property statement allows as the reply to a request of each kind.  An abandoned request gets no reply
+\* ("Abandoned" is the caller's own mark); if its reply won the race against the caller giving up, it is that reply.
+Base(kind) ==
   CASE kind \in Served         -> {"Ok"}         \* its own result
     [] kind = "panic"          -> {"Panic"}
     [] kind = "overrun"        -> {"Timeout"}
     [] kind \in {"oom","exit"} -> {"Crashed"}
+    [] kind = "abandon"        -> {"Abandoned", "Ok"}
+    [] kind = "abover"         -> {"Abandoned", "Timeout"}
+    [] kind = "kill"           -> {"Env"}
+
+\* The child was killed from outside before request k and no request has reached a child since (the entries between
+\* are further kills or abandoned calls, which may never have sent anything).  When nothing says that the killed child
+\* was gone before request k was sent (all gaps since the kill are 0), the request may have been handed to the dying
+\* child: "Crashed" names what happened to it.  Once the child is known to be gone (a gap >= 1) the request is served
+\* normally by a restarted child.
+KillChain(n) == \E j \in 1..(n - 1) : /\ plan[j] = "kill"
+                                     /\ \A i \in (j + 1)..(n - 1) : plan[i] \in AbandonKinds \cup EnvKinds /\ gaps[i] = 0
+AdmissibleAt(k) ==
+  Base(plan[k]) \cup (IF plan[k] \notin EnvKinds /\ KillChain(k) /\ gaps[k] = 0 THEN {"Crashed"} ELSE {})
 
 TypeOK ==
-  /\ cpc \in {"idle", "waiting", "done"} /\ next \in 1..(Len(plan) + 1)
-  /\ reqCh \in 0..Len(plan) /\ taskAlive \in BOOLEAN
+  /\ cpc \in {"idle", "waiting", "done"} /\ next \in 1..(Len(plan) + 1) /\ out \in 0..Len(plan)
+  /\ reqCh \in 0..Len(plan) /\ taskAlive \in BOOLEAN /\ resent \in BOOLEAN
   /\ ppc \in {"spawn", "hs_write", "hs_read", "take", "write", "read", "deliver", "kill", "gone"}
   /\ cst \in {"none", "boot", "hs", "idle", "handling", "replying", "sleeping", "dying", "dead"}
   /\ Len(inPipe) <= PipeCap /\ Len(outPipe) <= PipeCap
+  /\ DrainAbandoned => out <= 1
 
-\* each execute returns exactly once: one entry per finished call, never a second reply waiting
+\* each plan entry is answered exactly once: one history entry per finished call, and the only replies that may be
+\* waiting while no call is in progress are those of abandoned requests (which nobody will be given)
 OneReplyEach ==
   /\ Len(got) = next - 1
-  /\ cpc \in {"idle", "done"} => respCh = NoResp
+  /\ cpc \in {"idle", "done"} /\ out = 0 => respCh = NoResp
   /\ cpc = "done" => Len(got) = Len(plan)
 
 \* reply k is the result of request k or the error naming what happened to request k
 OwnReply ==
-  \A k \in DOMAIN got : /\ got[k].class \in Admissible(plan[k])
+  \A k \in DOMAIN got : /\ got[k].class \in AdmissibleAt(k)
                         /\ got[k].class \in {"Ok", "Panic"} => got[k].of = k
 
 \* a request that does nothing wrong gets its own result, whatever happened before it
 Isolation ==
-  \A k \in DOMAIN got : plan[k] \in Served => got[k].class = "Ok" /\ got[k].of = k
+  \A k \in DOMAIN got : plan[k] \in Served /\ "Crashed" \notin AdmissibleAt(k) => got[k].class = "Ok" /\ got[k].of = k
 
-\* no frame produced for request i is ever delivered to a request j # i
+\* no frame produced for request i is ever delivered to a request j # i (in particular not the reply of an abandoned i)
 NoStale == \A k \in DOMAIN got : got[k].of \in {0, k}
 
 AllGood == OneReplyEach /\ OwnReply /\ Isolation /\ NoStale
@@ -347,28 +439,34 @@ AllGood == OneReplyEach /\ OwnReply /\ Isolation /\ NoStale
 \* every call returns (checked under FairSpec, without a state constraint)
 Progress == <>(cpc = "done")
 
-\* the transcription's respawn pattern: a reply comes from child number 1 + (faults before it)
+\* the transcription's respawn pattern for plans of requests only: a reply comes from child number 1 + (faults before it)
 ExpectedGen(k) == 1 + Cardinality({i \in 1..(k - 1) : plan[i] \in Faults})
-GenPattern == \A k \in DOMAIN got : got[k].class \in {"Ok", "Panic"} => got[k].gen = ExpectedGen(k)
+GenPattern == (\A i \in DOMAIN plan : plan[i] \notin EnvKinds \cup AbandonKinds) =>
+                 \A k \in DOMAIN got : got[k].class \in {"Ok", "Panic"} => got[k].gen = ExpectedGen(k)
 
 -----------------------------------------------------------------------------
-(* VIEW.  The future of a state depends on the requests still to be executed, *)
-(* not on the served prefix: request numbers are taken relative to `next`,   *)
-(* the history is reduced to its verdict (AllGood: a state with a bad reply  *)
-(* stays distinct from every good state and so is seen by the invariants),   *)
-(* `gen` only feeds the history.  ViewSound states what this relies on.      *)
+(* VIEW.  The future of a state depends on the requests still to be executed  *)
+(* and on the requests in flight (at most the current one and an abandoned    *)
+(* one), not on the served prefix: request numbers are taken relative to      *)
+(* `next`, every place that holds a request number also shows that request's  *)
+(* kind, the history is reduced to its verdict (AllGood: a state with a bad   *)
+(* reply stays distinct from every good state and so is seen by the           *)
+(* invariants), `gen` only feeds the history.  ViewSound states what this     *)
+(* relies on; MC_Sandbox_noview.cfg is the cross-check without VIEW.          *)
 Rel(k) == IF k = 0 THEN 1 ELSE k - next
-RelChunk(c) == [t |-> c.t, req |-> Rel(c.req), n |-> c.n]
+KindAt(k) == IF k = 0 THEN "-" ELSE plan[k]
+RelChunk(c) == [t |-> c.t, req |-> Rel(c.req), kind |-> KindAt(c.req), n |-> c.n]
 RelSeq(s) == [i \in DOMAIN s |-> RelChunk(s[i])]
 RelResp(r) == [class |-> r.class, of |-> Rel(r.of)]
 
 View == <<SubSeq(plan, next, Len(plan)), SubSeq(gaps, next, Len(gaps)),
-          cpc, Rel(reqCh), RelResp(respCh), taskAlive,
-          ppc, Rel(cur), pw, pr, RelResp(resp), brk,
-          cst, Rel(creq), RelChunk(cfr), cw, cr, expired,
+          KillChain(next),
+          cpc, out, Rel(reqCh), KindAt(reqCh), RelResp(respCh), taskAlive,
+          ppc, Rel(cur), IF ppc = "write" \/ resent THEN KindAt(cur) ELSE "-", pw, pr, RelResp(resp), brk, resent,
+          cst, Rel(creq), IF cst = "handling" THEN KindAt(creq) ELSE "-", RelChunk(cfr), cw, cr, expired,
           RelSeq(inPipe), RelSeq(outPipe), AllGood>>
 
-ViewSound ==   \* plan is only ever consulted at the request being executed
-  /\ (cst = "handling" => creq = next)
-  /\ (taskAlive /\ ppc = "write" => cur = next /\ cpc = "waiting")
+ViewSound ==   \* plan is only ever consulted at a request in flight: the one being executed or an abandoned one
+  /\ (cst = "handling" => creq # 0 /\ creq <= next /\ (creq = next \/ out > 0 \/ ~DrainAbandoned))
+  /\ (taskAlive /\ ppc = "write" => cur # 0 /\ cur <= next /\ ((cur = next /\ cpc = "waiting") \/ out > 0 \/ ~DrainAbandoned))
 =============================================================================
